@@ -94,8 +94,7 @@ def run_real(job):
            "distinct": [], "corr_fail": [], "mon_fail": [], "known": [], "samples": [], "extra": {}}
     rp = {"model": "m10-real", "job": {"seed": job["seed"], "calls": job["calls"]}}
     try:
-        p = subprocess.run(["timeout", "-s", "KILL", "240", "/venv/bin/python", "-m", "harness.m10_real", str(job["seed"]), str(job["calls"])],
-                           cwd=plug.ds.REPO, env=env, stdout=subprocess.PIPE, stderr=subprocess.DEVNULL)
+        p = plug.run_group(["/venv/bin/python", "-m", "harness.m10_real", str(job["seed"]), str(job["calls"])], plug.ds.REPO, env, 240)
     except Exception as e:   # noqa
         return {"infra_error": "real round trips could not be started: %r" % (e,)}
     line = [l for l in p.stdout.decode("utf8", "replace").splitlines() if l.startswith("M10REAL ")]
